@@ -10,6 +10,14 @@ import (
 	"verif/engine/univ"
 )
 
+func allIdx(n int) []int {
+	out := make([]int, n)
+	for i := range out {
+		out[i] = i
+	}
+	return out
+}
+
 func c18Pads(lvl int) []string {
 	if lvl == 0 {
 		return []string{"", " ", "\t", "\n", "\r"}
@@ -100,6 +108,26 @@ func c18Unit(name string, lvl int) core.Unit {
 								viol("version-padding-compare", []string{ps, s, trail + u.Strs[o] + lead}, fmt.Sprintf("Compare=%d as unpadded", want), fmt.Sprintf("%d", got))
 							}
 						}
+					}
+				}
+			}
+		}
+		// long padding (length limits applied before trimming): 300 and 5000 blanks on either side
+		for _, i := range stride(allIdx(len(u.Strs)), 12) {
+			s, v := u.Strs[i], u.Vers[i]
+			if s != strings.TrimSpace(s) {
+				continue
+			}
+			for _, n := range []int{300, 5000} {
+				for _, ps := range []string{strings.Repeat(" ", n) + s, s + strings.Repeat(" ", n), strings.Repeat("\n", n) + s + strings.Repeat("\t", n)} {
+					pv, err := eco.SafeParse(e, ps)
+					r.Add("evaluations", 1)
+					if err != nil {
+						viol("version-padding-acceptance", []string{ps, s}, "padded input accepted like the unpadded one", "error: "+err.Error())
+						continue
+					}
+					if c, p := eco.SafeCompare(pv, v); p != nil || c != 0 {
+						viol("version-padding-compare", []string{ps, s, s}, "Compare(padded, unpadded)=0", fmt.Sprintf("%d", c))
 					}
 				}
 			}
@@ -316,7 +344,7 @@ func init() {
 				"distinct_nontrivial":           r.Counters["nontrivial"],
 			}
 		},
-		Rule:        "for every accepted version string of C01's quick universe and every accepted range string of the range grammar: String() equals the input up to outer whitespace; String() parses again to an equal value (ranges: identical membership on a 40-version probe set); every padding lead x trail over {'', SP, TAB, LF, CR} (thorough: 8 paddings incl. two-character ones) leaves acceptance, String(), Compare against the unpadded value itself (= 0) and Compare against a stride probe set (24 / 80 versions, both argument orders, and padded-vs-padded) / Contains unchanged; rejected candidate strings stay rejected when padded. distinct_nontrivial = accepted versions + accepted ranges.",
+		Rule:        "for every accepted version string of C01's quick universe and every accepted range string of the range grammar: String() equals the input up to outer whitespace; String() parses again to an equal value (ranges: identical membership on a 40-version probe set); every padding lead x trail over {'', SP, TAB, LF, CR} (thorough: 8 paddings incl. two-character ones) leaves acceptance, String(), Compare against the unpadded value itself (= 0) and Compare against a stride probe set (24 / 80 versions, both argument orders, and padded-vs-padded) / Contains unchanged; rejected candidate strings stay rejected when padded; 12 versions per ecosystem are also padded with 300 and 5000 blanks / line feeds / tabs. distinct_nontrivial = accepted versions + accepted ranges.",
 		Assumptions: []string{"paddings are drawn from space, tab, CR, LF as the property states"},
 	})
 }
